@@ -100,6 +100,9 @@ pub struct Plan {
     pub sched_policy: String,
     /// bytes of the reference load (C14: X must be < this for the hard-error oracle)
     pub note: String,
+    /// History: plans executed before this one on the same thread of the same process (state
+    /// that leaks from one load into the next is part of the replay).
+    pub prelude: Vec<Plan>,
 }
 
 pub fn hex(b: &[u8]) -> String {
@@ -149,6 +152,7 @@ impl Plan {
             schedule: Vec::new(),
             sched_policy: String::new(),
             note: String::new(),
+            prelude: Vec::new(),
         }
     }
 
@@ -194,6 +198,7 @@ impl Plan {
             "schedule": self.schedule,
             "sched_policy": self.sched_policy,
             "note": self.note,
+            "history_before": self.prelude.iter().map(|p| p.to_json()).collect::<Vec<_>>(),
         })
     }
 
@@ -260,6 +265,11 @@ impl Plan {
         }
         p.sched_policy = s("sched_policy").unwrap_or_default();
         p.note = s("note").unwrap_or_default();
+        if let Some(a) = v.get("history_before").and_then(|x| x.as_array()) {
+            for h in a {
+                p.prelude.push(Plan::from_json(h)?);
+            }
+        }
         Ok(p)
     }
 }
